@@ -1642,6 +1642,40 @@ fn main() {
             }
             println!("RESULT enum:random-kinds-grid seed={seed}: {count} random record lists: rows kept in order, one sorted column per distinct tag, one kind per value, typed getters agree");
         }
+        // ---- C11: seeded random values in random legal spellings, read through readers that deliver random chunk sizes and are interrupted at random
+        //      calls: the value, and for grids the rows of the lazy iterator, equal what buffer decoding gives
+        "enum:random-chunks" => {
+            use randgen::*;
+            use libhaystack::encoding::zinc::decode::parse_grid_iterator;
+            use libhaystack::encoding::zinc::decode::parser::Parser;
+            struct Rd<'a> { data: &'a [u8], pos: usize, rng: Rng }
+            impl<'a> std::io::Read for Rd<'a> {
+                fn read(&mut self, buf: &mut [u8]) -> std::io::Result<usize> {
+                    if self.rng.below(4) == 0 { return Err(std::io::Error::new(std::io::ErrorKind::Interrupted, "interrupted")); }
+                    let k = (1 + self.rng.below(7)).min(buf.len()).min(self.data.len() - self.pos);
+                    buf[..k].copy_from_slice(&self.data[self.pos..self.pos + k]); self.pos += k; Ok(k)
+                }
+            }
+            let seed: u64 = std::env::var("VERIF_SEED").ok().and_then(|s| s.parse().ok()).unwrap_or(0);
+            let count: usize = args.get(2).and_then(|s| s.parse().ok()).unwrap_or(600);
+            let mut rng = Rng::seeded(seed ^ 0x1234);
+            for i in 0..count {
+                let v = value(&mut rng, 0, &IDS, &STRS, &UNITS, &ZONES);
+                let text = refwrite::top(&v, &mut rng);
+                let want = from_str(&text);
+                let mut rd = Rd { data: text.as_bytes(), pos: 0, rng: Rng::seeded(rng.next()) };
+                let got = Parser::make(&mut rd).and_then(|mut p| p.parse_value());
+                let same = match (&got, &want) { (Ok(a), Ok(b)) => format!("{a:?}") == format!("{b:?}"), (Err(_), Err(_)) => true, _ => false };
+                if !same { println!("RESULT enum:random-chunks seed={seed} #{i} text={text:?}: from a chunked, interrupted reader {got:?}, from the buffer {want:?}"); std::process::exit(3); }
+                if let (Value::Grid(_), Ok(Value::Grid(g))) = (&v, &want) {
+                    let mut rd = Rd { data: text.as_bytes(), pos: 0, rng: Rng::seeded(rng.next()) };
+                    let rows: Result<Vec<_>, _> = Parser::make(&mut rd).and_then(|mut p| parse_grid_iterator(&mut p).and_then(|it| it.collect::<Result<Vec<_>, _>>()));
+                    if !matches!(&rows, Ok(r) if format!("{r:?}") == format!("{:?}", g.rows)) {
+                        println!("RESULT enum:random-chunks seed={seed} #{i} text={text:?}: the lazy iterator over a chunked reader gives {rows:?}, buffer decoding the rows {:?}", g.rows); std::process::exit(3); }
+                }
+            }
+            println!("RESULT enum:random-chunks seed={seed}: {count} random texts decode the same from randomly chunked, randomly interrupted readers as from a buffer (rows of the lazy iterator included)");
+        }
         // ---- C09 enumerator (evaluation half): `id *== @ref` over resolvers whose refs form chains and cycles of several shapes must
         //      terminate with the right answer; a run that does not come back is reported as a hang by the caller's watchdog
         "enum:wildcard-cycles" => {
